@@ -721,7 +721,13 @@ def _generate_color_font(config: FontConfig, inputs: Iterable[InputGlyph]):
     color_glyphs = []
     glyph_order = list(ufo.glyphOrder)
     assert glyph_order[0] == ".notdef"
+    input_glyph_names = set()
     for glyph_input in inputs:
+        if glyph_input.glyph_name in input_glyph_names:
+            raise ValueError(
+                f"Multiple inputs resolve to glyph name {glyph_input.glyph_name!r}"
+            )
+        input_glyph_names.add(glyph_input.glyph_name)
         if glyph_input.glyph_name in glyph_order:
             gid = glyph_order.index(glyph_input.glyph_name)
         else:
